@@ -34,9 +34,7 @@ pub(crate) fn wl_step_family(gate: &str) -> String {
 }
 #[cfg(descriptive_gate)]
 vmod!(c10);
-#[cfg(not(feature = "shuttle"))]
 vmod!(wl);
-#[cfg(not(feature = "shuttle"))]
 vmod!(c01);
 #[cfg(not(feature = "shuttle"))]
 #[cfg(descriptive_gate)]
